@@ -387,7 +387,9 @@ func genResp0(t *tape.Tape, method string, rich bool, last bool) respSpec {
 	if t.Chance(1, 4) {
 		// (different names in different responses: a mix-up between concurrent messages must be visible)
 		name := []string{"X-Resp-Hop", "X-Resp-Hop-B", "X-Resp-Hop-C"}[t.Intn(3)]
-		r.Fields = append(r.Fields, h1.Field{Name: "Connection", Value: name}, h1.Field{Name: name, Value: "hop"})
+		// (list spellings: RFC 9110 5.6.1 allows optional whitespace around the commas, none is required)
+		cv := []string{name, "keep-alive," + name, name + " ,keep-alive", "keep-alive,\t" + name, "keep-alive, " + name}[t.Pick(3, 1, 1, 1, 1)]
+		r.Fields = append(r.Fields, h1.Field{Name: "Connection", Value: cv}, h1.Field{Name: name, Value: "hop"})
 		if t.Chance(1, 3) {
 			other := []string{"X-Resp-Hop", "X-Resp-Hop-B", "X-Resp-Hop-C"}[t.Intn(3)]
 			if other != name {
